@@ -181,3 +181,17 @@ mzd_t *vf_mul_mp(mzd_t *C, mzd_t const *A, mzd_t const *B, int cutoff, int add, 
   return NULL;
 #endif
 }
+
+#ifndef VF_WRAPALLOC
+void vf_wrap_enable(int on) { (void)on; }
+void vf_wrap_set_fill(int fresh, int freed) { (void)fresh; (void)freed; }
+void vf_wrap_fail_at(long idx) { (void)idx; }
+long vf_wrap_requests(void) { return 0; }
+long vf_wrap_allocs(void) { return 0; }
+long vf_wrap_frees(void) { return 0; }
+long vf_wrap_live(void) { return 0; }
+long vf_wrap_live_bytes(void) { return 0; }
+long vf_wrap_failed(void) { return 0; }
+int vf_wrap_present(void) { return 0; }
+int vf_wrap_live_sizes(long *out, int max) { (void)out; (void)max; return 0; }
+#endif
